@@ -15,4 +15,4 @@ ASSUMPTIONS = ["BinaryIO.tell/seek/readline semantics; re match offsets index th
 
 
 def run(project, rep):
-    H.h_rules(project, rep)
+    rep.run(H.h_rules, project, rep)
